@@ -22,7 +22,9 @@ REQUIRED = ["parse_sound", "last_member_decides", "lc_exact", "lc_exact_fails_wi
             "fact_signature_verifier", "fact_add_two_phases", "fact_root_check",
             # deepening round 2026-09-28
             "fact_framing_body", "accepted_bytes_pass_framing", "accepted_compact_is_three_canonical_segments", "one_signed_transaction_one_ref",
-            "honest_compact_passes_framing", "decoder_alone_is_not_injective"]
+            "honest_compact_passes_framing", "decoder_alone_is_not_injective",
+            "store_bytes_refine_graph_add", "hash_list_append_parses", "clock_shelf_decodes", "find_between_lc_reads_every_stored_tx",
+            "range_scan_stops_at_a_gap", "counters_read_back"]
 
 HEX64 = re.compile(r"^[0-9a-fA-F]{64}$")
 
@@ -261,7 +263,7 @@ def run(ctx):
     def replay_text(i):
         meta = json.dumps({"op": "meta", "leg": leg_of[i], "seed": ctx.seed})
         op = ops[i].get("op")
-        if op in ("parse", "framing"):
+        if op in ("parse", "framing", "hashlist"):
             return meta + "\n" + raw_ops[i]
         return meta + "\n" + "\n".join(raw_ops[hist_start(i):i + 1])
 
@@ -616,6 +618,65 @@ def run(ctx):
         s.startswith("C06:admitted-malformed") for s in seen_sig),
         f"{n_add} adds: {n_admit} admitted, {n_reject} rejected ({n_cancel} with the context cancelled inside the write tx), {n_readd} re-adds")
 
+
+    # ------------------------------------------------------------------ oracle 2b (deepening round): the bytes in the store, on the implementation's own dumps
+    n_shelf = n_hashlist = n_ranges = 0
+    last_obs = None
+    for i, op in enumerate(ops):
+        kind = op.get("op")
+        if kind == "hashlist":
+            n_hashlist += 1
+            raw = base64.b64decode(op["call"]["in"])
+            kv = dict(re.findall(r"(\w+)=(\S*)", impl[i]))
+            want_n = len(raw) // 32
+            ok = (kv.get("n") == str(want_n) and kv.get("nil") == ("true" if len(raw) == 0 else "false") and kv.get("back") == str((len(raw) + 32) // 32)
+                  and kv.get("app", "").split(":")[0] == str(len(raw) + 32)
+                  and [r.split(":")[1] for r in kv.get("refs", "").split(",") if r] == [raw[k * 32:k * 32 + 4].hex() for k in range(want_n)]
+                  and (len(raw) < 4 or kv.get("clk") == str(int.from_bytes(raw[:4], "big"))) and (len(raw) < 8 or kv.get("cnt") == str(int.from_bytes(raw[:8], "big"))))
+            if not ok:
+                violate("C06:hash-list-codec", f"parseHashList/appendHashList/bytesToClock do not read {len(raw)} bytes as whole 32-byte refs / big-endian counters: {impl[i][:200]}", i)
+            continue
+        if kind in ("new", "add", "reopen", "sched", "rbwin", "list", "payload", "create"):
+            last_obs = obs(impl[i]) if " | " in impl[i] else last_obs
+            continue
+        if kind != "shelf" or not impl[i].startswith("CL="):
+            continue
+        n_shelf += 1
+        parts = dict(p.split("=", 1) for p in impl[i].split(" | "))
+        cl = []          # (clock, ref8) in store order
+        broken = None
+        for e in [e for e in parts.get("CL", "").split(";") if e]:
+            k, _, v = e.partition(":")
+            if len(k) != 8 or "+" in v:
+                broken = e
+                continue
+            cl += [(int(k, 16), r) for r in v.split(",") if r]
+        doc = [r for r in parts.get("DOC", "").split(",") if r]
+        md = dict(x.split(":", 1) for x in parts.get("MD", "").split(",") if ":" in x)
+        refs = [r for _, r in cl]
+        if broken or len(set(refs)) != len(refs) or sorted(refs) != sorted(doc):
+            violate("C06:clock-index-differs-from-documents", f"the clocks shelf does not file every stored transaction exactly once as a whole 32-byte ref "
+                    f"(documents: {len(doc)}, clock entries: {len(refs)}, distinct: {len(set(refs))}, malformed entry: {broken})", i)
+        if last_obs is not None:
+            lc_seen = sorted((int(x.split(":")[0]), x.split(":")[1]) for x in last_obs.get("LC", "").split(",") if x)
+            if lc_seen != sorted(cl) and not broken:
+                violate("C06:clock-index-differs-from-documents", "a stored transaction is filed under another clock value than the one it declares / FindBetweenLC returned", i)
+        want_md = {"tx_num": "%016x" % len(doc), "lc_high": "%08x" % max([c for c, _ in cl], default=0)}
+        if doc and (md.get("tx_num") != want_md["tx_num"] or md.get("lc_high") != want_md["lc_high"] or
+                    (md.get("head_ref"), int(md.get("lc_high", "0"), 16)) not in [(r, c) for c, r in cl]):
+            violate("C06:metadata-differs-from-stored", f"metadata shelf {md} against {len(doc)} stored transactions, highest clock {want_md['lc_high']}", i)
+        if (parts.get("roots") == "true") != any(c == 0 for c, _ in cl):
+            violate("C06:root-check-misreads-store", f"getRoots(clocks) != nil is {parts.get('roots')} although the store {'holds' if any(c == 0 for c, _ in cl) else 'holds no'} transaction at clock 0", i)
+        for q in [q for q in parts.get("RNG", "").split(";") if q]:
+            n_ranges += 1
+            ab, _, got = q.partition(":")
+            a, b = (int(x) for x in ab.split("-"))
+            want = ",".join(f"{c}/{r}" for c, r in sorted((c, r) for c, r in cl if a <= c < b))
+            if got != want:
+                violate("C06:find-between-lc-incomplete", f"findBetweenLC({a},{b}) returned [{got[:200]}] but the store holds [{want[:200]}] in that clock range", i)
+    ctx.oblige("oracle:store-bytes-hold-exactly-the-dag(impl)", not any(s.split(":")[1] in ("hash-list-codec", "clock-index-differs-from-documents", "metadata-differs-from-stored",
+               "root-check-misreads-store", "find-between-lc-incomplete") for s in seen_sig), f"{n_shelf} raw store dumps, {n_ranges} range scans, {n_hashlist} hash-list inputs")
+
     # ------------------------------------------------------------------ oracle 3: every interleaving equals a sequential order (impl only)
     groups = {}
     for i, op in enumerate(ops):
@@ -691,7 +752,7 @@ def run(ctx):
                        "re-offers after the missing prev arrived, a second state on the same DB; full observation after every op; (3) schedules: 8 scenario kinds x "
                        "ALL interleavings of read-tx/write-tx steps (6 for 2 threads, 90 for 3) forced by a gating KVStore. distinct_nontrivial = distinct input byte strings offered")
     ctx.cov["input_distribution"] = {"ops": {k: v for k, v in sorted(stats.items())}, "mutation_classes": dict(notes.most_common(40)),
-                                     "parse_unmodelled_framing": n_unmodelled, "framing_inputs": n_framing, "framing_classes": dict(fr_notes.most_common(40)), "schedules": n_sched, "schedule_scenarios": n_groups,
+                                     "parse_unmodelled_framing": n_unmodelled, "framing_inputs": n_framing, "raw_store_dumps": n_shelf, "range_scans": n_ranges, "hash_list_inputs": n_hashlist, "framing_classes": dict(fr_notes.most_common(40)), "schedules": n_sched, "schedule_scenarios": n_groups,
                                      "legs": dict(Counter(leg_of)), "transaction_lists(v2 handler)": n_list, "late_payloads(v2 handler)": n_late,
                                      "CreateTransaction calls (wired Network)": n_create,
                                      "adds": {"total": n_add, "admitted": n_admit, "rejected": n_reject, "re-adds": n_readd, "context-cancelled-in-write-tx": n_cancel}}
